@@ -88,17 +88,17 @@ func (l *scriptedBase) body() *lint.LintResult {
 // plain (not Configurable) variants
 type certPlain struct{ scriptedBase }
 
-func (l *certPlain) CheckApplies(c *x509.Certificate) bool     { return l.applies() }
+func (l *certPlain) CheckApplies(c *x509.Certificate) bool        { return l.applies() }
 func (l *certPlain) Execute(c *x509.Certificate) *lint.LintResult { return l.body() }
 
 type crlPlain struct{ scriptedBase }
 
-func (l *crlPlain) CheckApplies(c *x509.RevocationList) bool     { return l.applies() }
+func (l *crlPlain) CheckApplies(c *x509.RevocationList) bool        { return l.applies() }
 func (l *crlPlain) Execute(c *x509.RevocationList) *lint.LintResult { return l.body() }
 
 type ocspPlain struct{ scriptedBase }
 
-func (l *ocspPlain) CheckApplies(c *ocsp.Response) bool     { return l.applies() }
+func (l *ocspPlain) CheckApplies(c *ocsp.Response) bool        { return l.applies() }
 func (l *ocspPlain) Execute(c *ocsp.Response) *lint.LintResult { return l.body() }
 
 // Configurable variants
@@ -117,17 +117,17 @@ func (l *confMixin) Configure() interface{} {
 
 type certConf struct{ confMixin }
 
-func (l *certConf) CheckApplies(c *x509.Certificate) bool     { return l.applies() }
+func (l *certConf) CheckApplies(c *x509.Certificate) bool        { return l.applies() }
 func (l *certConf) Execute(c *x509.Certificate) *lint.LintResult { return l.body() }
 
 type crlConf struct{ confMixin }
 
-func (l *crlConf) CheckApplies(c *x509.RevocationList) bool     { return l.applies() }
+func (l *crlConf) CheckApplies(c *x509.RevocationList) bool        { return l.applies() }
 func (l *crlConf) Execute(c *x509.RevocationList) *lint.LintResult { return l.body() }
 
 type ocspConf struct{ confMixin }
 
-func (l *ocspConf) CheckApplies(c *ocsp.Response) bool     { return l.applies() }
+func (l *ocspConf) CheckApplies(c *ocsp.Response) bool        { return l.applies() }
 func (l *ocspConf) Execute(c *ocsp.Response) *lint.LintResult { return l.body() }
 
 func specMeta(s *LintSpec) lint.LintMetadata {
